@@ -11,33 +11,56 @@ namespace NutilsVerif.C10
 /-! ## (a) hierarchical refinement: for every history, nothing is lost, duplicated or overlapping -/
 
 /-- **hier_partition (general base).**  Start from any duplicate-free set of level-0 cells (a structured
-topology, or any slice / selection of one) and apply ANY history of `refined` / `refined_by(any index set)`.
-Then no active cell is another active cell or an ancestor of one (elements do not overlap, none is duplicated),
-and the total measure is conserved: in units of a level-`L` cell, `Σ 2^(d(L-level)) = #base · 2^(dL)` for
-every `L` at least as fine as the finest active level. -/
-theorem hier_partition_bases (d : Nat) (bases : List (List Nat)) (hb : bases.Nodup) (ops : List Op) :
-    (runFrom d bases ops).Pairwise Apart ∧
-    ∀ L, (∀ c ∈ runFrom d bases ops, c.level ≤ L) →
-      measure d L (runFrom d bases ops) = bases.length * 2 ^ (d * L) :=
-  isPartition_runFrom d bases hb ops
+topology, or any slice / selection of one) and apply ANY history of `refined` / `refined_by(any index list)`
+(negative indices count from the end; an index outside the element range aborts the history with an IndexError,
+there is then no result).  Whenever the history has a result: no active cell is another active cell or an
+ancestor of one (elements do not overlap, none is duplicated), and the total measure is conserved: in units of a
+level-`L` cell, `Σ 2^(d(L-level)) = #base · 2^(dL)` for every `L` at least as fine as the finest active level. -/
+theorem hier_partition_bases (d : Nat) (bases : List (List Nat)) (hb : bases.Nodup) (ops : List Op) (cells : List Cell)
+    (hr : runFrom d bases ops = .ok cells) :
+    cells.Pairwise Apart ∧
+    ∀ L, (∀ c ∈ cells, c.level ≤ L) → measure d L cells = bases.length * 2 ^ (d * L) :=
+  isPartition_runFrom d bases hb ops cells hr
 
 /-- **hier_partition.**  The same for a full `shape` grid (`mesh.rectilinear(shape)`): the active cells of every
 history cover the base exactly, `Σ 2^(d(L-level)) = (Π shape) · 2^(dL)`, and are pairwise non-overlapping. -/
-theorem hier_partition (shape : List Nat) (ops : List Op) :
-    (run shape ops).Pairwise Apart ∧
-    ∀ L, (∀ c ∈ run shape ops, c.level ≤ L) →
-      measure shape.length L (run shape ops) = shape.foldr (· * ·) 1 * 2 ^ (shape.length * L) := by
-  have h := isPartition_runFrom shape.length (multiIndices shape) (nodup_multiIndices shape) ops
+theorem hier_partition (shape : List Nat) (ops : List Op) (cells : List Cell) (hr : run shape ops = .ok cells) :
+    cells.Pairwise Apart ∧
+    ∀ L, (∀ c ∈ cells, c.level ≤ L) →
+      measure shape.length L cells = shape.foldr (· * ·) 1 * 2 ^ (shape.length * L) := by
+  have h := isPartition_runFrom shape.length (multiIndices shape) (nodup_multiIndices shape) ops cells hr
   rw [length_multiIndices] at h
   exact h
 
 /-- no element occurs twice after any history (a special case of non-overlap) -/
-theorem hier_nodup (shape : List Nat) (ops : List Op) : (run shape ops).Nodup := by
-  have h := (hier_partition shape ops).1
+theorem hier_nodup (shape : List Nat) (ops : List Op) (cells : List Cell) (hr : run shape ops = .ok cells) : cells.Nodup := by
+  have h := (hier_partition shape ops cells hr).1
   unfold List.Nodup
   refine h.imp (fun {a b} hab heq => ?_)
   subst heq
   exact hab.1 ⟨rfl, List.prefix_refl _⟩
+
+/-- a history only fails on an index error: histories whose `refined_by` indices are all in range
+(`-len ≤ i < len` at the time of the call) always have a result, so the theorems above are not vacuous -/
+theorem hier_step_ok (d : Nat) (cells : List Cell) (sel : List Int)
+    (h : ∀ i ∈ sel, -(cells.length : Int) ≤ i ∧ i < cells.length) : ∃ cells', step d cells (.refinedBy sel) = .ok cells' := by
+  have : ∃ s, sel.mapM (normIndex cells.length) = some s := by
+    induction sel with
+    | nil => exact ⟨[], rfl⟩
+    | cons a t ih =>
+      obtain ⟨s, hs⟩ := ih (fun i hi => h i (List.mem_cons_of_mem _ hi))
+      have ha := h a List.mem_cons_self
+      have : ∃ j, normIndex cells.length a = some j := by
+        unfold normIndex
+        by_cases h0 : a < 0
+        · have hc : 0 ≤ a + ↑cells.length ∧ a + ↑cells.length < ↑cells.length := by omega
+          exact ⟨(a + ↑cells.length).toNat, by simp only [h0, if_true, hc, and_self]⟩
+        · have hc : 0 ≤ a ∧ a < ↑cells.length := by omega
+          exact ⟨a.toNat, by simp only [h0, if_false, hc, and_self, if_true]⟩
+      obtain ⟨j, hj⟩ := this
+      exact ⟨j :: s, by simp [List.mapM_cons, hj, hs]⟩
+  obtain ⟨s, hs⟩ := this
+  exact ⟨canon d (refineSel d cells s), by simp only [step, hs]⟩
 
 /-- one refinement step conserves the measure of every single element: the `2^d` children of a cell weigh
 exactly as much as the cell -/
@@ -46,9 +69,10 @@ theorem refine_measure (d L : Nat) (c : Cell) (h : c.level + 1 ≤ L) :
   measure_children d L c h
 
 -- the hypotheses are satisfiable / the statement is not vacuous: a 2x3 grid, two refined_by steps and a uniform one
-example : (run [2, 3] [.refinedBy [0, 4], .refinedBy [1, 5, 9], .refined]).length = 84 := by decide
-example : ∀ c ∈ run [2, 3] [.refinedBy [0, 4], .refinedBy [1, 5, 9], .refined], c.level ≤ 3 := by decide
-example : measure 2 3 (run [2, 3] [.refinedBy [0, 4], .refinedBy [1, 5, 9], .refined]) = 6 * 2 ^ (2 * 3) := by decide
+example : (run [2, 3] [.refinedBy [0, 4], .refinedBy [1, -7, 9], .refined]).toOption.map List.length = some 84 := by decide
+example : (run [2, 3] [.refinedBy [0, 4], .refinedBy [1, -7, 9], .refined]).toOption.map (fun cs => cs.all (·.level ≤ 3)) = some true := by decide
+example : (run [2, 3] [.refinedBy [0, 4], .refinedBy [1, -7, 9], .refined]).toOption.map (measure 2 3) = some (6 * 2 ^ (2 * 3)) := by decide
+example : (run [2, 3] [.refinedBy [6]]).toOption = none := by decide
 
 /-! ## (b) faces of an arbitrary cell subset of a structured, optionally periodic grid -/
 
